@@ -48,7 +48,7 @@ UN = {
     'arctan': (math.atan, lambda x: 1.0 / (1 + x * x), 'any'),
     'sinh': (math.sinh, math.cosh, 'bounded'),
     'cosh': (math.cosh, math.sinh, 'bounded'),
-    'tanh': (math.tanh, lambda x: 1.0 - math.tanh(x) ** 2, 'any'),
+    'tanh': (math.tanh, lambda x: 1.0 / math.cosh(x) ** 2, 'any'),
     'arcsinh': (math.asinh, lambda x: 1.0 / math.sqrt(1 + x * x), 'any'),
     'arccosh': (math.acosh, lambda x: 1.0 / math.sqrt(x * x - 1), 'gt1'),
     'arctanh': (math.atanh, lambda x: 1.0 / (1 - x * x), 'unit'),
@@ -339,7 +339,7 @@ def _fun_table():
         'sincos2': (2, None, lambda anp, x: anp.sin(x[0]) * anp.cos(x[1]),
                     lambda v: np.array([math.cos(v[0]) * math.cos(v[1]), -math.sin(v[0]) * math.sin(v[1])])),
         'single': (1, None, lambda anp, x: anp.tanh(x[0]) + x[0] ** 3,
-                   lambda v: np.array([1 - math.tanh(v[0]) ** 2 + 3 * v[0] ** 2])),
+                   lambda v: np.array([1 / math.cosh(v[0]) ** 2 + 3 * v[0] ** 2])),
         'vec2': (3, (2,), lambda anp, x: anp.array([x[0] * x[1], x[1] - x[2] ** 2]),
                  lambda v: np.array([[v[1], v[0], 0.0], [0.0, 1.0, -2 * v[2]]])),
         'cumsum3': (3, (3,), lambda anp, x: anp.cumsum(x), lambda v: np.tril(np.ones((3, 3)))),
